@@ -75,6 +75,31 @@ CLAIMED.update({
             "TLA+ model checking (TLC) + spec->impl case replay + impl->spec trace validation"),
 })
 
+CLAIMED.update({
+    "C10": ("3.C10", "MC_Cli: the command-line pipeline as a TLA+ state machine (one action per stage of main) explored for 51 k configurations "
+            "(formula x filter x -c x -m): the transcribed printing algorithm satisfies the acceptance predicates TableOK/VarsOK/HeaderOK. The real "
+            "binary is run over a matrix of formulas x 15 filter spellings x 3 input channels x ordering files x {-t,-v,-m,-b N}; every run is one "
+            "event validated by Trace_Cli, which re-tokenizes and re-parses the formula and ordering texts itself, derives the id order, checks "
+            "header, disjoint faithful partition against Sem, -v lines, and keeps a per-configuration stdout digest (channel / repeat independence).",
+            "TLA+ model checking (TLC) of Cli.tla + impl->spec trace validation of real CLI runs"),
+    "C11": ("3.C11", "Cli!IdOrder/FormulaVars specify variable ids from ordering text and formula; for every formula x ordering variant (permutation, "
+            "subset, superset with unused names, duplicates, stray punctuation/keywords/numbers) the CLI run (-o) and the API route (NamedSymbol "
+            "vector with ids 5,9,13..) are validated by Trace_Cli: names in id order, header order, same function as Sem under the default "
+            "order, -r export = id order, and re-importing the export reproduces the byte-identical table (digest under the same key).",
+            "TLA+ specification of the ordering + impl->spec trace validation of CLI and API runs"),
+    "C12": ("3.C12", "Syntax/Lang/Cli give every pipeline action an Ok/Err post-state and the trace specifications have no action for a panic. "
+            "All token sequences (<= 4) and piece strings (<= 3) of the C08 universes plus seeded byte-level inputs (random bytes, invalid UTF-8, "
+            "token soups, mutated formulas, extreme/non-ASCII digits, unbalanced brackets, empty, nesting <= 200, <= 64 KiB) are run in-process as "
+            "formula and as ordering file under catch_unwind and through the binary with random option sets (exit status 0/1 required).",
+            "TLA+ totality of the specified pipeline + exhaustive enumeration replay + seeded byte-level driving validated by Trace_Lang"),
+    "C14": ("3.C14", "MC_Dot: a TLA+ model of both exporters satisfies DotBddOK/DotTreeOK for every diagram over 3 (thorough 4) variables x 3 filters and "
+            "every spine formula of depth <= 1 (2). Real exports: BDDGraph DOT of every diagram over 3 variables (names needing escaping) x 3 "
+            "filters and SymbolicParseTree DOT of random formulas with repeated sub-terms, plus rsbdd -d/-p runs, are read back and validated by "
+            "Trace_Cli: ids unique, only declared ids referenced, node-for-node equal to Canon of the function (omitted leaf per filter), "
+            "unfolding of the tree graph equals the parse tree with shared identical sub-terms.",
+            "TLA+ model checking (TLC) of Dot.tla + impl->spec trace validation of read-back exports"),
+})
+
 PENDING_REASON = "machinery for this property is not built yet in this revision (planned in DESIGN.md section 3); no claim is made"
 
 ALL = ["C%02d" % i for i in range(1, 21)]
